@@ -9,7 +9,7 @@ META = {
                    '(or the class budget is reached) and decides each obligation for all inputs of the class.',
     'functions_encoded': ['TasOptimization::GradientDescent (adaptive, projected, constant step)', 'TasOptimization::computeStationarityResidual', 'TasOptimization::identity', 'GradientDescentState'],
     'assumptions': ['double arithmetic on symbolic data is interpreted over the reals', 'callbacks return arbitrary values inside the stated boxes (f in [-10,10], g in [-4,4], projection in [-3,3])',
-                    'stepsize parameters are concrete (0.5, increase 2, decrease 2); constant step 0.25'],
+                    'stepsize parameters are concrete, four triples (initial, increase, decrease): (0.5,2,2), (1,3,4), (0.25,1.5,2.5), (2,1.25,8); constant step 0.25'],
 }
 
 
@@ -20,6 +20,7 @@ def configs(tier):
         cs.append(Config('projected-d1-cap3', 'C19', [1, 1, 3, 0], max_paths=48))
         cs.append(Config('constant-d1-cap3-tol', 'C19', [2, 1, 3, 1], max_paths=32))
         cs.append(Config('adaptive-d2-cap2-tol', 'C19', [0, 2, 2, 1], max_paths=32))
+        cs.append(Config('adaptive-d1-cap3-dec4', 'C19', [0, 1, 3, 0, 1], max_paths=48)); cs.append(Config('adaptive-d1-cap3-dec8', 'C19', [0, 1, 3, 0, 3], max_paths=32)); cs.append(Config('projected-d1-cap2-dec2.5', 'C19', [1, 1, 2, 0, 2], max_paths=24))
     else:
         for d in (1, 2):
             cs.append(Config('adaptive-d%d-cap4' % d, 'C19', [0, d, 4, 0], max_paths=400))
@@ -27,6 +28,8 @@ def configs(tier):
             cs.append(Config('projected-d%d-cap4' % d, 'C19', [1, d, 4, 0], max_paths=400))
             cs.append(Config('projected-d%d-cap3-tol' % d, 'C19', [1, d, 3, 1], max_paths=400))
             cs.append(Config('constant-d%d-cap4-tol' % d, 'C19', [2, d, 4, 1], max_paths=200))
+            for ps in (1, 2, 3):
+                cs.append(Config('adaptive-d%d-cap4-pset%d' % (d, ps), 'C19', [0, d, 4, 0, ps], max_paths=300)); cs.append(Config('projected-d%d-cap3-pset%d' % (d, ps), 'C19', [1, d, 3, 1, ps], max_paths=200))
     return cs
 
 
